@@ -56,6 +56,8 @@ class CLOSING(Aggregate, Origcurrency):
     currency = SubAggregate(CURRENCY)
     origcurrency = SubAggregate(ORIGCURRENCY)
 
+    optionalMutexes = [["currency", "origcurrency"]]
+
 
 class STMTENDRQ(Aggregate):
     """OFX section 11.5.1"""
